@@ -44,6 +44,19 @@ def _restore(uc):
     uc.reset_units(**DEFAULT)
 
 
+def _ordered(units, order=None):
+    """the keyword dict of a named choice with its keys in the given order (dicts keep insertion order, ** passes it on)"""
+    if order is None:
+        order = [q for q in g9.QUANT if q in units]
+    if sorted(order) != sorted(units):
+        raise HarnessError('order %r is not a permutation of the chosen quantities %r' % (order, sorted(units)))
+    return {q: units[q] for q in order}
+
+
+def _kw(units, order=None):
+    return ', '.join('%s=%r' % (q, n) for q, n in _ordered(units, order).items())
+
+
 def apply_cfg(uc, cfg):
     k = cfg['kind']
     if k == 'seed':
@@ -51,7 +64,7 @@ def apply_cfg(uc, cfg):
     elif k == 'SI':
         uc.reset_units(seed='SI')
     elif k == 'named':
-        uc.reset_units(**cfg['units'])
+        uc.reset_units(**_ordered(cfg['units'], cfg.get('order')))
     else:
         raise HarnessError('bad cfg %r' % (cfg,))
     return 'cfg_' + k
@@ -207,7 +220,9 @@ def oracle_invariance(case):
     xnz = np.abs(xr[xr != 0])
     xlo, xhi = (float(xnz.min()), float(xnz.max())) if xnz.size else (1.0, 1.0)
     cfgs = case['cfgs']
-    distinct = len({json.dumps(c, sort_keys=True) for c in cfgs})
+    distinct = len({json.dumps({k: v for k, v in c.items() if k != 'order'}, sort_keys=True) for c in cfgs})
+    if any(c.get('order') not in (None, [q for q in g9.QUANT if q in c['units']]) for c in cfgs if c['kind'] == 'named'):
+        labels.add('kw_reordered')
     labels.add('distinct_cfgs_%d' % distinct)
     results = []
     try:
@@ -251,10 +266,11 @@ def named_enumerate(tier):
             i += 1
             pre = [{'kind': 'seed', 'seed': 7919 * i}, {'kind': 'SI'}, None,
                    {'kind': 'named', 'units': {'length': 'nm', 'mass': 'g', 'time': 'fs', 'charge': 'mC'}}][i % 4]
-            cases.append({'kind': 'choice', 'units': dict(zip(sub, names)), 'pre': pre})
+            cases.append({'kind': 'choice', 'units': dict(zip(sub, names)), 'pre': pre, 'orders': g9.orders_of(sub)})
     # over-determined but consistent choices ("any consistent choice of up to four")
     for names in (('m', 'kg', 's', 'J'), ('cm', 'g', 's', 'erg'), ('um', 'pg', 'us', 'fJ'), ('mm', 'g', 'ms', 'mJ')):
-        cases.append({'kind': 'choice', 'units': dict(zip(('length', 'mass', 'time', 'energy'), names)), 'pre': {'kind': 'seed', 'seed': 11}})
+        cases.append({'kind': 'choice', 'units': dict(zip(('length', 'mass', 'time', 'energy'), names)), 'pre': {'kind': 'seed', 'seed': 11},
+                      'orders': g9.orders_of(('length', 'mass', 'time', 'energy'))})
     # seed='SI' and integer seeds
     for j in range(8):
         cases.append({'kind': 'si', 'units': {}, 'pre': [{'kind': 'seed', 'seed': 31 * j + 1}, None][j % 2]})
@@ -267,6 +283,34 @@ def named_enumerate(tier):
     for j, sub in enumerate(g9.SUBSETS):
         cases.append({'kind': 'refuse_seed', 'units': {q: table[q][j % len(table[q])] for q in sub}, 'seed': [5, 'SI', 0][j % 3]})
     return cases
+
+
+PRE_CYCLE = [{'kind': 'seed', 'seed': 4242}, None, {'kind': 'SI'},
+             {'kind': 'named', 'units': {'length': 'nm', 'mass': 'g', 'time': 'fs', 'charge': 'mC'}, 'order': ['charge', 'time', 'mass', 'length']}]
+
+
+def _chosen_are_one(uc, units, order, blocked=False):
+    """each chosen unit has the value one (1e-12) through unit[], parse and get_in_units"""
+    table = uc.unit
+    for q in g9.QUANT:          # fixed order; energy is judged after the base units
+        if q not in units:
+            continue
+        name = units[q]
+        for how, val in (('unit[%r]' % name, table[name]), ('parse(%r)' % name, uc.parse(name)),
+                         ('get_in_units(1.0, %r)' % name, float(uc.get_in_units(1.0, name)))):
+            ok = bool(np.isfinite(val)) and abs(val - 1.0) <= 1e-12
+            if not ok:
+                raise Violation('after reset_units(%s) the chosen %s unit is not one: %s = %r' % (_kw(units, order), q, how, val),
+                                key=KEY_MTE if (blocked and q == 'energy') else None)
+
+
+def _same_table(uc, units, order, t1, when, other):
+    t2 = uc.unit
+    require(set(t1) == set(t2), 'unit table has different names after the same reset_units call')
+    for name in sorted(t1):
+        require(abs(t1[name] - t2[name]) <= 1e-12 * abs(t2[name]),
+                lambda: 'reset_units(%s) is not a function of the choice alone: unit[%r] = %r when %s, but %r %s'
+                % (_kw(units, order), name, t2[name], when, t1[name], other))
 
 
 def oracle_named(case):
@@ -317,31 +361,28 @@ def oracle_named(case):
                 require(abs(t['J'] - e) <= 1e-13 * e and abs(t['angstrom'] - 1e-10 * t['m']) <= 1e-23 * t['m'],
                         lambda: 'unit table not rebuilt from the base units of seed %d: J = %r, kg*m^2/s^2 = %r' % (case['seed'], t['J'], e))
             return labels | {'seed', 'nt'}
-        uc.reset_units(**units)
-        table = uc.unit
+        # the keywords are passed in every order (orders[0] is length, mass, time, energy, charge; orders[-1] its reverse)
+        orders = case.get('orders') or [[q for q in g9.QUANT if q in units]]
         blocked = {'mass', 'time', 'energy'} <= set(units) and 'length' not in units
         if blocked:
             labels.add('mass_time_energy')
-        for q in g9.QUANT:          # fixed order; energy is judged after the base units
-            if q not in units:
-                continue
-            name = units[q]
-            for how, val in (('unit[%r]' % name, table[name]), ('parse(%r)' % name, uc.parse(name)),
-                             ('get_in_units(1.0, %r)' % name, float(uc.get_in_units(1.0, name)))):
-                ok = bool(np.isfinite(val)) and abs(val - 1.0) <= 1e-12
-                if not ok:
-                    raise Violation('after reset_units(**%r) the chosen %s unit is not one: %s = %r' % (units, q, how, val),
-                                    key=KEY_MTE if (blocked and q == 'energy') else None)
+        uc.reset_units(**_ordered(units, orders[0]))
+        _chosen_are_one(uc, units, orders[0], blocked)
         # the table is a function of the choice only ("the specified working units and SI"), not of what was in force before
-        t1 = dict(table)
+        t1 = dict(uc.unit)
         uc.reset_units(seed='SI')
-        uc.reset_units(**units)
-        t2 = uc.unit
-        require(set(t1) == set(t2), 'unit table has different names after the same reset_units call')
-        for name in sorted(t1):
-            require(abs(t1[name] - t2[name]) <= 1e-12 * abs(t2[name]),
-                    lambda: 'reset_units(**%r) depends on the previous working units (%r): unit[%r] = %r, but %r when called after SI'
-                    % (units, case.get('pre'), name, t1[name], t2[name]))
+        uc.reset_units(**_ordered(units, orders[-1]))
+        _chosen_are_one(uc, units, orders[-1], blocked)
+        _same_table(uc, units, orders[-1], t1, 'called after SI', 'after %r' % (case.get('pre'),))
+        # ... nor of the order in which the keywords are written
+        for k, order in enumerate(orders[1:-1]):
+            if k % 2 == 0 and PRE_CYCLE[(k // 2) % len(PRE_CYCLE)] is not None:
+                apply_cfg(uc, PRE_CYCLE[(k // 2) % len(PRE_CYCLE)])
+            uc.reset_units(**_ordered(units, order))
+            _chosen_are_one(uc, units, order, blocked)
+            _same_table(uc, units, order, t1, 'the keywords are given in this order', 'with the keywords in the order %s' % ', '.join(orders[0]))
+        if len(orders) > 1:
+            labels.add('kw_orders_%d' % len(orders))
         if any(n not in SI_ONE for n in units.values()):
             labels.add('nt')
         if 'energy' in units:
